@@ -44,7 +44,7 @@ def run(ctx):
         for ext in ('TRUE', 'FALSE'):
             for mode in ('pn', 'semi'):
                 gcfg = ('SPECIFICATION Spec\nCONSTANTS\n MaxLen = %d\n Extend = %s\n PostMode = "%s"\n'
-                        'INVARIANT NoIndexError\nINVARIANT KidsTile\nINVARIANT GroupEdges\n' % (6 if quick else 7, ext, mode))
+                        'INVARIANT NoIndexError\nINVARIANT KidsTile\nINVARIANT GroupEdges\n' % (5 if quick else 7, ext, mode))
                 gr = _tlc.run(ctx.workdir, 'GroupInfix', gcfg, workers=8, label='GroupInfix_%s_%s' % (ext, mode), coverage=False, timeout=900)
                 ctx.add_tlc(gr, 'GroupInfix exhaustive (Extend=%s, post=%s)' % (ext, mode))
         from .. import treeops
